@@ -5,13 +5,14 @@ from harness import tlcrun
 from harness.drivers import dddmp_gen
 
 
-LEVEL = 'exploration'
-
-
 def run(chk):
     q = chk.quick
     chk.rule = (
-        'seeded text-mode DDDMP files written by the harness: 1-3 root '
+        'S1: MC_CopyLoad -- the transcribed dddmp.load (re-indexing of gapped '
+        'levels, level-by-level rebuild, root ids mapped with sign) applied to '
+        'abstract files derived from every reachable source manager with two '
+        'numberings and two level maps: loaded roots denote the dumped '
+        'functions. S3: seeded text-mode DDDMP files written by the harness: 1-3 root '
         'functions (regular and complemented) over 1-5 support variables out '
         'of up to 8 declared (gaps in the permutation ids), CUDD edge '
         'convention, a RANDOM children-before-parents numbering of the nodes, '
@@ -22,6 +23,11 @@ def run(chk):
         'list; every file node\'s function must be present; manager canonical; '
         'relative variable order kept. distinct_nontrivial = distinct (file '
         'node list, roots, header mode)')
+    chk.mc('MC_CopyLoad', 'MC_CopyLoad.cfg' if q else 'MC_CopyLoad_deep.cfg', timeout=3000)
+    r = tlcrun.model_check('MC_CopyLoad', 'MC_CopyLoad_neg_dddmp.cfg', 'neg', timeout=600)
+    if 'is violated' not in r['out']:
+        raise tlcrun.MachineryError('negative configuration MC_CopyLoad_neg_dddmp was not refuted')
+    chk.extra['negative_configurations_refuted'] = ['MC_CopyLoad_neg_dddmp.cfg (root ids handed over unmapped)']
     tmp = os.path.join(chk.dir, 'tmp')
     n = tlcrun.NCPU
     per = 40 if q else 2500
